@@ -129,6 +129,24 @@ theorem session_requests_then_unbind (env : Env) (table) (g : Guards) (cfg : Cfg
   rw [session_requests env table g cfg tt htt dec rs hs hu (fuel + 1),
     session_unbind env table g cfg tt htt id hid hber fuel rest]
 
+/-- the frames of a session are those of the requests it decodes, request by request -/
+theorem session_frames (env : Env) (table) (g : Guards) (cfg : Cfg) (fuel : Nat) (bs : Bytes) :
+    (session env table g cfg fuel bs).1 = (sessionMsgs env g fuel bs).flatMap (framesFor table g cfg) := by
+  induction fuel generalizing bs with
+  | zero => simp [session, sessionMsgs]
+  | succ fuel ih =>
+    rw [session, sessionMsgs]
+    by_cases hb : bs.isEmpty = true
+    · simp [hb]
+    · simp only [hb]
+      cases hs : serveFrame env g bs with
+      | err => simp
+      | panic => simp
+      | ok msg =>
+        by_cases hu : msg.isUnbind = true
+        · simp [hu, framesFor]
+        · simp [hu, framesFor, ih]
+
 /-! ### every frame carries the message id of the request it answers -/
 
 theorem construct_id (g : Guards) (mid : Int) (c : Ctor) (opts : List ROpt) (r : Resp)
